@@ -148,7 +148,7 @@ def to_argv(cfg, data):
 
 def key(cfg):
     return tuple((k, cfg.get(k)) for k in FACTORS) + (tuple(cfg.get("extra") or ()), cfg.get("_data"), cfg.get("_spelling"),
-                                                            cfg.get("_overridden"))
+                                                            cfg.get("_overridden"), cfg.get("_cross"))
 
 
 # every documented option once, on a configuration it concerns: (sub-commands, base factors, raw extra arguments)
@@ -264,6 +264,49 @@ def precedence():
                    _overridden="--rate_init")
 
 
+CROSS_SWITCHES = ["coalescent_integrated", "gmrf_integrated", "coalescent_non_centered", "coalescent_temperature",
+                  "disable_time_aware", "coalescent_init"]
+
+
+def cross_model():
+    """switches documented for ONE tree prior given with EVERY tree prior (argparse accepts them all): the emitted model
+    must still be the described one - every sampled parameter under a prior, Jacobians counted once, what is free = what the
+    model says.  `--coalescent_integrated` (the constant coalescent's) runs under every sub-command, the others under hmc."""
+    base = {"model": "JC69", "categories": 1, "invariant": False, "clock": "strict", "heights": "ratio",
+            "grid": None, "cutoff": None, "family": "meanfield", "distribution": "Normal"}
+    for sw in CROSS_SWITCHES:
+        for tp in FACTORS["treeprior"]:
+            if tp is None:
+                continue
+            for cmd in (FACTORS["cmd"] if sw == "coalescent_integrated" else ("hmc",)):
+                yield dict(base, cmd=cmd, treeprior=tp, init=sw, _cross=True)
+
+
+# every Python spelling of a float (float() accepts them all; negative values are not admissible for these options)
+SPELL_500 = ["500", "500.0", "500.", "5e2", "5.0E+2", "+5.0e+02", ".5e3", "0.05E4"]
+SPELL_QUARTER = ["0.25", ".25", "2.5e-1", "25E-2", "+0.25", "00.25", "2.5E-01"]
+
+
+def numeric_spellings():
+    """the same NUMBER spelled in every way float() reads, for every numeric option and distribution argument: the emitted
+    value is float(spelling) (a parser that recognises only some spellings falls back to a default or refuses)"""
+    base = {"model": "JC69", "categories": 1, "invariant": False, "clock": "strict", "heights": "ratio", "treeprior": None,
+            "grid": None, "cutoff": None, "family": "meanfield", "distribution": "Normal", "init": None}
+    for cmd in ("hmc", "advi"):
+        for sp in SPELL_500 + SPELL_QUARTER:
+            yield dict(base, cmd=cmd, extra=["--clockpr", f"exponential({sp})"])
+    for sp in SPELL_QUARTER:
+        yield dict(base, cmd="hmc", extra=["--rate_init", sp])
+        yield dict(base, cmd="hmc", extra=["--rate", sp])
+        yield dict(base, cmd="map", treeprior="constant", extra=["--coalescent_init", sp])
+        yield dict(base, cmd="advi", clock=None, extra=["--brlens_init", sp])
+        yield dict(base, cmd="hmc", extra=["--step_size", sp, "--steps", "3"])
+        yield dict(base, cmd="advi", extra=["--lr", sp])
+    for sp in SPELL_500:
+        yield dict(base, cmd="hmc", extra=["--root_height_init", sp])
+        yield dict(base, cmd="advi", treeprior="constant", extra=["--coalescent_init", sp])
+
+
 def date_spellings():
     """equivalent SPELLINGS of the same sampling dates (the dates in the names read by the default pattern, by an explicit
     --date_regex, from a csv that repeats them; for contemporaneous data also --dates 0), heterochronous and
@@ -346,7 +389,7 @@ def _normalise(cfg):
         c["cutoff"] = None
     else:
         c["grid"], c["cutoff"] = None, None
-    if c.get("init") and not INIT_NEEDS[c["init"]](c):
+    if c.get("init") and not c.get("_cross") and not INIT_NEEDS[c["init"]](c):
         c["init"] = None
     return c
 
